@@ -609,7 +609,11 @@ pub fn run_c14() {
         let mut st = C14Stats { worlds: 0, requests: 0, responses: 0, multi_packet: 0, max_wire: 0, capped: 0, pings: 0, distinct: Default::default() };
         let mut problems = vec![];
         let mut samples = vec![];
-        rt::run(c14_world(*m, *f, *big, sizes, &lists, &mut st, &mut problems, &mut samples));
+        // a panic inside the service task (tokio swallows it; the scripted channel then closes) is the
+        // subject's failure, not the harness'
+        if let Err((loc, msg)) = mc::catch_subject_panic(|| rt::run(c14_world(*m, *f, *big, sizes, &lists, &mut st, &mut problems, &mut samples))) {
+            problems.push(Violation { clause: "the implementation never panics".into(), key: format!("panic:{loc}"), detail: format!("panic at {loc}: {msg} (world with {m} table entries)"), replay: json!({"engine":"ssim","check":"C14","entries":m}) });
+        }
         (st, problems, samples)
     });
     let mut tot = C14Stats { worlds: 0, requests: 0, responses: 0, multi_packet: 0, max_wire: 0, capped: 0, pings: 0, distinct: Default::default() };
@@ -1089,7 +1093,7 @@ pub fn c16_service_level() -> (u64, Vec<Violation>) {
                 1 => ListenConfig::Ipv6 { ip: "2001:db8::60".parse().unwrap(), port: 9000 },
                 _ => ListenConfig::DualStack { ipv4: Ipv4Addr::new(10, 0, 0, 60), ipv4_port: 9000, ipv6: "2001:db8::60".parse().unwrap(), ipv6_port: 9000 },
             };
-            let node = SNode::start(SNodeSpec { keyno: 60, listen, enr: None }, |b| { b.ip_limit(); }, false).await;
+            let mut node = SNode::start(SNodeSpec { keyno: 60, listen, enr: None }, |b| { b.ip_limit(); }, false).await;
             let pool = key_pool(&node.id, 4000, 400);
             let mk = |k: u16| -> Enr {
                 let key = util::key(k);
@@ -1150,6 +1154,24 @@ pub fn c16_service_level() -> (u64, Vec<Violation>) {
                 }
                 if total > 10 {
                     return Err(Violation { clause: "the table never holds more than 10 nodes sharing a /24".into(), key: format!("service:table-limit:{name}"), detail: format!("listen mode {name} with ip_limit: {total} nodes of 10.77.0.0/24 after {n} add_enr calls"), replay: json!({"engine":"ssim","check":"C16","listen_mode":name}) });
+                }
+            }
+            // a node the service holds a session with is re-added by the user with a newer record
+            // that moves it into the saturated /24
+            if let Some(k) = pool.by_distance.get(&256).and_then(|ks| ks.iter().nth(7).copied()) {
+                let key = util::key(k);
+                let first = util::enr(&key, &util::EnrSpec { seq: 1, ip4: Some((Ipv4Addr::new(10, 79, 0, 9), 9000)), ip6: Some((std::net::Ipv6Addr::new(0x2001, 0xdb8, 0, 0, 0, 0, 3, k), 9000)), pad: 0 });
+                let addr: SocketAddr = if mode == 1 { first.udp6_socket().unwrap().into() } else { first.udp4_socket().unwrap().into() };
+                node.inject(HandlerOut::Established(first.clone(), addr, v::ConnectionDirection::Outgoing)).await;
+                let moved = util::enr(&key, &util::EnrSpec { seq: 2, ip4: Some((Ipv4Addr::new(10, 77, 0, 251), 9000)), ip6: Some((std::net::Ipv6Addr::new(0x2001, 0xdb8, 0, 0, 0, 0, 3, k), 9000)), pad: 0 });
+                let _ = node.discv5.add_enr(moved);
+                n += 1;
+                let name = ["Ipv4", "Ipv6", "DualStack"][mode as usize];
+                let entries = node.discv5.table_entries();
+                let total = entries.iter().filter(|(_, e, _)| e.ip4().map(|i| i.octets()[..3] == [10, 77, 0]).unwrap_or(false)).count();
+                let in_bucket = entries.iter().filter(|(id, e, _)| util::log2_distance(&node.id, id) == 256 && e.ip4().map(|i| i.octets()[..3] == [10, 77, 0]).unwrap_or(false)).count();
+                if total > 10 || in_bucket > 2 {
+                    return Err(Violation { clause: "limits hold for inserts, record updates and status changes alike".into(), key: format!("service:limit-after-readd:{name}"), detail: format!("listen mode {name} with ip_limit: after add_enr of a newer record of a connected node the table holds {total} nodes of 10.77.0.0/24 ({in_bucket} in bucket 256)"), replay: json!({"engine":"ssim","check":"C16","listen_mode":name}) });
                 }
             }
             if n < 12 {
